@@ -645,6 +645,26 @@ def c15(report, rng, tier, findings):
             super().violation(what, case, **kw)
     run_query_cases(report, ocases, {'caching': (False, True), 'evals': 1},
                     OJ(report, findings, 'C15', nontrivial=nontrivial_filter))
+    # the sub-query constrains a FLATTENED element that it does not select and the enclosing query does (C16's vocabulary)
+    fcases = []
+    for j in range(max(40, n // 4)):
+        objs = gen_nested_case(rng, j, container_elements=False)
+        raw = [('o', k_) for k_ in range(len(objs))]
+        P, E = ('var', 0), ('flat', 100, ('attr', 'items', ('var', 0)))
+        pc = ('cmp', rng.choice(('gt', 'le', 'eq', 'ne')), ('attr', 'a', P), ('lit', ('i', rng.randint(0, 3))))
+        ec = ('cmp', rng.choice(('gt', 'le', 'eq', 'ne', 'lt', 'ge')), E, ('lit', ('i', rng.randint(0, 4))))
+        case = {'id': f'f{j}', 'classes': [('A', '-')], 'objs': objs, 'vars': [(0, 'A', raw)], 'quant': 'an'}
+        fcases.append(subquery_over_flatten(rng, case, P, E, pc, ec))
+        report.count('subquery_constrains_a_flattened_element_it_does_not_select')
+    import harness.qcheck as qc
+    import harness.props_q as pq_
+    orig = qc.all_selected
+    qc.all_selected = pq_.all_selected = strict_all_selected(orig)
+    try:
+        run_query_cases(report, fcases, {'caching': (False, True), 'evals': 1},
+                        QueryJudge(report, findings, 'C15', nontrivial=lambda c, r: True))
+    finally:
+        qc.all_selected = pq_.all_selected = orig
     return ['EqlModel.Props.C15'], [
         "sub-queries as comparison operands and as constructor arguments are covered by the C13/C11 correspondence streams, not by a theorem",
         "every non-selected variable has a non-empty domain"]
@@ -948,6 +968,43 @@ def gen_nested_case(rng, cid, scalars=True, container_elements=False):
 MIRROR_OP = {'lt': 'gt', 'gt': 'lt', 'le': 'ge', 'ge': 'le', 'eq': 'eq', 'ne': 'ne'}
 
 
+def subquery_over_flatten(rng, case, P, E, pc, ec):
+    """The condition on the flattened element stands INSIDE a sub-query over the parent that does not select the element, while
+    the enclosing query selects it: an(set_of([p, e], an(entity(p, e op k)))) means the condition written in place."""
+    inner = rng.choice([ec, ('and', pc, ec), ('or', ec, ('cmp', 'eq', E, ('lit', ('i', rng.randint(0, 4)))))])
+    sq = ('sub', (P,), inner)
+    shape = rng.choice(('alone', 'and', 'and_sub', 'or_sub'))
+    pc2 = ('cmp', rng.choice(('ge', 'le', 'ne')), ('attr', 'a', P), ('lit', ('i', rng.randint(0, 3))))
+    if shape == 'alone':
+        ci, ce = [sq], [inner]
+    elif shape == 'and':
+        ci, ce = [('and', sq, pc2)], [('and', inner, pc2)]
+    elif shape == 'and_sub':
+        ci, ce = [('and', sq, ('sub', (P,), pc2))], [('and', inner, pc2)]
+    else:
+        ci, ce = [('or', sq, ('sub', (P,), pc2))], [('or', inner, pc2)]
+    sel_ = rng.choice(([P, E], [E, P], [P, E]))
+    case = {**case, 'sel': sel_, 'cond': ci, 'entity': False}
+    case['explicit'] = {**case, 'cond': ce}
+    return case
+
+
+def strict_all_selected(orig):
+    """canonical form of rows with a flattened element: multiset only when (parent, element) are both selected and no inner
+    collection repeats an element"""
+    def strict(case):
+        if not orig(case):
+            return False
+        if not any(t[0] == 'flat' for t in case['sel']):
+            return False
+        for _, _, a in case['objs']:
+            it = a['items']
+            if it[0] in ('l', 't') and len(set(it[1:])) != len(it[1:]):
+                return False
+        return True
+    return strict
+
+
 def c16(report, rng, tier, findings):
     n = n_cases(tier, 300, 4000)
     cases = []
@@ -1031,23 +1088,7 @@ def c16(report, rng, tier, findings):
             case['explicit'] = {**base_, 'vars': [(0, 'A', keep)], 'sel': [E], 'cond': [ec] if with_c else None, 'entity': True}
             report.count('parent_is_an_unselected_query_result')
         if i % 9 == 7 and not cont_el and not case.get('two_vars'):
-            # the condition on the element stands INSIDE a sub-query over the parent that does not select the element, while
-            # the enclosing query selects it: an(set_of([p, e], an(entity(p, e op k)))) means the condition written in place
-            inner = rng.choice([ec, ('and', pc, ec), ('or', ec, ('cmp', 'eq', E, ('lit', ('i', rng.randint(0, 4)))))])
-            sq = ('sub', (P,), inner)
-            shape = rng.choice(('alone', 'and', 'and_sub', 'or_sub'))
-            pc2 = ('cmp', rng.choice(('ge', 'le', 'ne')), ('attr', 'a', P), ('lit', ('i', rng.randint(0, 3))))
-            if shape == 'alone':
-                ci, ce = [sq], [inner]
-            elif shape == 'and':
-                ci, ce = [('and', sq, pc2)], [('and', inner, pc2)]
-            elif shape == 'and_sub':
-                ci, ce = [('and', sq, ('sub', (P,), pc2))], [('and', inner, pc2)]
-            else:
-                ci, ce = [('or', sq, ('sub', (P,), pc2))], [('or', inner, pc2)]
-            sel_ = rng.choice(([P, E], [E, P], [P, E]))
-            case = {**case, 'sel': sel_, 'cond': ci, 'entity': False}
-            case['explicit'] = {**case, 'cond': ce}
+            case = subquery_over_flatten(rng, case, P, E, pc, ec)
             report.count('element_constrained_inside_a_subquery_that_does_not_select_it')
         cases.append(case)
         if rng.random() < 0.4:
